@@ -3,7 +3,7 @@
 export GOFLAGS=-mod=mod GOPROXY=off GOSUMDB=off GOTOOLCHAIN=local
 W=/tmp/refac-lean; rm -rf $W; mkdir -p $W; rsync -a --exclude .lake/build/ir /verif/lean/ $W/
 MODS="Gws.Props.TransFW Gws.Props.TransReadLoop Gws.Props.TransDequeCore Gws.Props.TransDequeOps Gws.Props.TransDequeRefine Gws.Props.TransNegoParse Gws.Props.TransFile Gws.Props.TransSend Gws.Props.TransFrame Gws.Props.TransReader Gws.Props.TransParse Gws.Props.TransFragment Gws.Props.TransControl Gws.Props.TransEmit Gws.Props.TransStep Gws.Props.TransClose Gws.Props.TransWindow Gws.Props.TransNego Gws.Props.TransQueue Gws.Props.TransLimited Gws.Props.TransWriter Gws.Props.TransCompress Gws.Props.TransMap Gws.Props.TransHandshake Gws.Props.TransProps"
-for k in ${HARMLESS:-1 2 3 4 5 6 7 8 9 10 11 12 13 14 15 16 17 18 19 20 21 22}; do
+for k in ${HARMLESS:-1 2 3 4 5 6 7 8 9 10 11 12 13 14 15 16 17 18 19 20 21 22 23 24 25 26 27 28 29 30}; do
   cd /tmp/refac && git checkout -q -- . && git apply /verif/harmless/$k.diff || { echo "$k: patch does not apply"; continue; }
   if ! /verif/.build/gotrans -repo /tmp/refac -lean $W/Gws/Generated/Trans.lean -deque $W/Gws/Generated/TransDeque.lean -fw $W/Gws/Generated/TransFW.lean 2> /tmp/harmless-$k.gotrans.err; then echo "$k: GOTRANS-FAILED: $(head -c 300 /tmp/harmless-$k.gotrans.err)"; continue; fi
   cd $W && out=$(lake build $MODS 2>&1); if echo "$out" | grep -q "^error\|error:"; then echo "$k: PROOF-BROKEN: $(echo "$out" | grep -o 'error: Gws/Props/[A-Za-z]*.lean:[0-9]*' | sort -u | head -5 | tr '\n' ' ')"; else echo "$k: ok (all equivalences still check)"; fi
